@@ -34,7 +34,7 @@ RULE = (
     "history 0 on a freshly built object; non-trivial = the program has a loop or a nested if AND at least one history had >=2 "
     "user turns whose decisions were compared with the reference; distinct = (program text, plans)"
 )
-MIN_HELD = {"quick": 1000, "thorough": 10000}
+MIN_HELD = {"quick": 1000, "thorough": 6000}
 MAX_INCONCLUSIVE = 0.02
 ASSUMPTIONS = [
     "oracle 1: recursive interpreter of the generator's AST (interp/ev, ~30 lines) with a global context, independent of simpleeval and of the compiled jump offsets",
@@ -803,7 +803,7 @@ def classify(r):
 
 
 def cases(tier, seed):
-    n = 2400 if tier == "quick" else 20000
+    n = 2400 if tier == "quick" else 12000
     depths = [1, 2, 2, 2] if tier == "quick" else [1, 2, 2, 3, 3, 3]
     for i in range(n):
         yield {
